@@ -366,6 +366,25 @@ func (ex *Explorer) intrinsic(caller *frame, name string, args []value) (value, 
 		return nil, true
 	case "vIsSymbolic":
 		return true, true
+	case "vYield":
+		ex.i.yield()
+		return nil, true
+	case "vBlockUntil":
+		f := args[0]
+		ex.i.block("vBlockUntil", func() bool {
+			switch r := call(ex.i, caller, token.NoPos, f, nil).(type) {
+			case bool:
+				return r
+			case symv:
+				return ex.decide(r)
+			}
+			return false
+		})
+		return nil, true
+	case "vDrain":
+		// lazy schedule: let every queued goroutine run now
+		ex.i.drain()
+		return nil, true
 	}
 	return nil, false
 }
